@@ -353,9 +353,17 @@ def run(repo='/repo', tier='quick'):
                         continue
                     rw = any(x[0] == 'stmt' and any(w.get('op') in ('=', '-=') for w in P.assigns_field(x[3], '%s_current_read_offset' % d)) for x in seq)
                     cl = any(x[0] == 'stmt' and any(c2.get('callee') == clear for c2 in nodes(x[3], lambda y: y.get('k') == 'call')) for x in seq)
-                    if rw and not cl:
+                    # or the buffer is cut back to what it held before the consolidation appended this chunk's bytes:
+                    # {d}_buf_size = V with V a local that was loaded from {d}_buf_size in front of the consolidate call
+                    saved = {v for v in [P.local_init_from(f, lambda e: e is not None and any(m.get('field') == '%s_buf_size' % d for m in nodes(e, lambda y: y.get('k') == 'member')))] if v}
+                    dom = C.dominators(f)
+                    pre = {v for v in saved for b_, i_, st_ in f.stmts() if ((b_ in dom[cb] and b_ != cb) or (b_ == cb and i_ < ci))
+                           and any((x_['k'] == 'decl' and any(vv['name'] == v and vv.get('init') is not None for vv in x_['vars'])) or (x_['k'] == 'assign' and P.K(x_['l']) == v) for x_ in nodes(st_, lambda y: y.get('k') in ('decl', 'assign')))}
+                    rs = any(x[0] == 'stmt' and any(w.get('op') == '=' and P.K(w['r']) in pre for w in P.assigns_field(x[3], '%s_buf_size' % d)) for x in seq)
+                    nobuf = any(a_[0] == 'connp->%s_buf' % d and a_[1] == '==' and a_[2] == '0' for a_, bb_ in atoms)     # no carry buffer on this path
+                    if rw and not (cl or rs or nobuf):
                         keeps = True
-            res.check(not keeps, 'C03.e', '%s:rewind-keeps-buffer' % name, 'the carry buffer is cleared when the line is un-read',
+            res.check(not keeps, 'C03.e', '%s:rewind-keeps-buffer' % name, 'when the line is un-read the carry buffer is cleared or cut back to what it held before the consolidation',
                       '%s un-reads the peeked line by rewinding the read offset but leaves the copy that htp_connp_%s_consolidate_data() made in the carry buffer: when the line started in the previous chunk its bytes are seen twice (or never) by the next state' % (name, side), rew[0][2]['loc'])
     # (iii) state functions read lines only through the consolidated view
     helpers = {'htp_connp_req_buffer', 'htp_connp_res_buffer', 'htp_connp_req_consolidate_data', 'htp_connp_res_consolidate_data',
